@@ -48,6 +48,8 @@ def fold(op, a, b):
 
 
 class Store:
+    watch = []  # stack of [path, hit]: writes at / under / above a watched path are noted (whichever fork performs them)
+
     def __init__(self, m=None):
         self.m = dict(m) if m else {}
 
@@ -60,6 +62,9 @@ class Store:
 
     def write(self, path, v):
         n = len(path)
+        for w_ in Store.watch:
+            if path[:len(w_[0])] == w_[0] or w_[0][:n] == path:
+                w_[1] = True
         for k in [k for k in self.m if len(k) > n and k[:n] == path]:
             del self.m[k]
         # an ancestor holding an aggregate must be exploded one level at a time
@@ -168,6 +173,8 @@ class Exec:
         self.ivar_bounds = {}
         self.loop_info = {}
         self.sites = []  # panic sites visited: dicts(fn, block, kind, operands, facts)
+        self.sink_roots = set()
+        self.loops_seen = set()  # (fn path, header block) of every loop the evaluation summarised
         self.cur_site = (None, None, None, None)
 
     def iter_item(self, st, itv, loopid):
@@ -352,6 +359,7 @@ class Exec:
            anything else written by the body becomes ('havoc', ..). Loops not driven by Iterator::next raise HasLoop."""
         fn = fr.fn
         cfg = fr.cfg
+        self.loops_seen.add((fn.path, h))
         blk = fn.block_by_id[h]
         t = blk["term"]
         nm = callees.callee_name(t["callee"]) if t["k"] == "call" else ""
@@ -492,19 +500,31 @@ class Exec:
     def _summarize_one(self, fr, st, h, loopid, item, itpath, start_block, enter, check=None):
         fn = fr.fn
 
+        def under_it(state):
+            return {k_: v_ for k_, v_ in state.store.m.items() if itpath and k_[:len(itpath)] == itpath}
+
         def body(state):
             enter(state)
+            it_before = under_it(state) if check is None else None
+            w_ = [itpath, False]
+            if check is None and itpath:
+                Store.watch.append(w_)
             self.active_loops.add((fr.id, h))
             try:
                 out = self.run(fr, start_block, state, h)
             finally:
                 self.active_loops.discard((fr.id, h))
+                if check is None and itpath:
+                    Store.watch.remove(w_)
             if out is None or getattr(out, "returned", False):
                 raise HasLoop("%s: loop body at bb%d leaves the loop irregularly" % (fn.label, h))
             if out.steps != state_steps[0]:
                 raise HasLoop("%s: loop at bb%d calls a component" % (fn.label, h))
             if check is not None:
                 check(out)
+            elif w_[1] or under_it(out) != it_before:
+                # termination and the bounds of the loop variable rest on the iterator being advanced by the header alone
+                raise HasLoop("%s: the body of the loop at bb%d writes the loop's own iterator" % (fn.label, h))
             return out
 
         state_steps = [st.steps]
@@ -564,10 +584,31 @@ class Exec:
             # frame-independent name of a loop-carried place
             return pstr(k) if isinstance(k[0], str) else ".".join(["L%d" % k[0][2]] + [str(x) for x in k[1:]])
 
-        s3 = st.fork()
-        for k in changed:
-            s3.store.write(k, ("lv", loopid, lvname(k)))
-        out2 = body(s3)
+        for _round in range(8):
+            s3 = st.fork()
+            for k in changed:
+                s3.store.write(k, ("lv", loopid, lvname(k)))
+            self.sites = list(saved_sites)
+            out2 = body(s3)
+            # discovery to a fixpoint: a place whose first-iteration value happened to equal its old one (`a = b` with a0 == b0)
+            # shows up as changed once the places it copies from are symbolic
+            more = {}
+            for k, v in out2.store.m.items():
+                if k in changed or k == itpath or (itpath and k[:len(itpath)] == itpath) or any(k[:len(c)] == c or c[:len(k)] == k for c in changed):
+                    continue
+                old = self._try_read(st, k)
+                if old is None:
+                    if isinstance(k[0], str):
+                        old = ("pre", pstr(k))
+                    else:
+                        continue
+                if v != old:
+                    more[k] = old
+            if not more:
+                break
+            changed.update(more)
+        else:
+            raise HasLoop("%s: loop at bb%d: the set of loop-carried places does not settle" % (fn.label, h))
         from terms import subterms
         for k, old in changed.items():
             lv = ("lv", loopid, lvname(k))
@@ -705,6 +746,8 @@ class Exec:
 
     def write_place(self, fr, st, place, v):
         path, idx = self.place_path(fr, st, place)
+        if isinstance(path[0], str) and path[0].startswith("X:"):
+            raise Unsupported("store through an opaque pointer (%s): the pointee may be any state it can reach" % path[0][:60])
         if idx is None:
             st.store.write(path, v)
         else:
@@ -738,6 +781,8 @@ class Exec:
 
     def write_ref(self, st, r, v):
         """store through a reference term ("ref", path, index|None)"""
+        if isinstance(r[1][0], str) and r[1][0].startswith("X:"):
+            raise Unsupported("store through an opaque pointer (%s)" % r[1][0][:60])
         if len(r) > 2 and r[2] is not None:
             arr = self.read_path(st, r[1])
             st.store.write(r[1], ("store", arr, r[2], v))
@@ -1443,7 +1488,7 @@ class Exec:
             old = self.read_path(st, args[0][1])
             st.store.write(args[0][1], ("fill", old, cu(0), self.length(old), args[1]))
             return UNIT
-        if re.search(r"slice::index::<impl (std|core)::ops::Index<.*> for \[[^\]]*\]>::index$|<\[[^\]]*\] as (std|core)::ops::Index<.*>>::index$", callees.strip_turbofish(n)):
+        if re.search(r"slice::index::<impl (std|core)::ops::Index(Mut)?<.*> for \[[^\]]*\]>::index(_mut)?$|<\[[^\]]*\] as (std|core)::ops::Index(Mut)?<.*>>::index(_mut)?$", callees.strip_turbofish(n)):
             base = args[0]
             rng = args[1]
             if isinstance(base, tuple) and base[0] == "ref" and base[2] is None and isinstance(rng, tuple) and rng[0] == "adt":
@@ -1589,14 +1634,25 @@ class Exec:
             if dflt is not None:
                 self.write_ref(st, args[0], dflt)
                 return old
+        # ---- unmodelled std callee: fail closed on anything through which it could change the evaluated state ----
         for i, a in enumerate(args):
-            if isinstance(a, tuple) and a[0] == "ref" and self._is_mut_ref(t, i) and a[1][0] == "self":
+            ty_ = self._arg_ty(t, i)
+            v_ = a
+            if isinstance(a, tuple) and a[0] == "ref" and not isinstance(a[1][0], str) and ty_.startswith("&mut "):
+                # a `&mut` to a local: the local itself is havocked below; what matters is what can be reached *through* it
+                ty_ = ty_[5:]
+                try:
+                    v_ = self.deref_val(st, a)
+                except Unsupported:
+                    raise Unsupported("std call with &mut to an unreadable local: " + name)
+            if ("&mut" in ty_ or "Mut<" in ty_ or "*mut" in ty_) and self._borrows_state(st, v_):
                 raise Unsupported("std call with &mut to state: " + name)
         for a in args:
             inner = self.deref_val(st, a) if isinstance(a, tuple) and a[0] == "ref" and not isinstance(a[1][0], str) else a
             if isinstance(inner, tuple) and inner and inner[0] in ("closure", "fn"):
                 raise Unsupported("a closure / function is passed to an unmodelled callee (%s): its effects are unknown" % name)
         snap = []
+        at = []
         for a in args:
             if isinstance(a, tuple) and a[0] == "ref" and not isinstance(a[1][0], str):
                 try:
@@ -1605,7 +1661,55 @@ class Exec:
                 except Unsupported:
                     pass
             snap.append(a)
-        return ("ucall", n, tuple(snap), 0)
+        # the call reads the state behind its (shared) borrows as it is *now*: two calls around a store are different values
+        for pre_ in self._borrowed_roots(st, args):
+            at.append(tuple(sorted(((pstr(k_), v_) for k_, v_ in st.store.m.items() if k_[:len(pre_)] == pre_), key=repr)))
+        res = ("ucall", n, tuple(snap), 0) + ((("at", tuple(at)),) if any(at) else ())
+        # a `&mut` to a local: the callee may have changed the local (`v.reverse()`, `it.next()`): its value is unknown afterwards
+        for i, a in enumerate(args):
+            if isinstance(a, tuple) and a[0] == "ref" and not isinstance(a[1][0], str) and self._is_mut_ref(t, i):
+                self.write_ref(st, a, ("ucall", n + "#out%d" % i, tuple(snap), 0) + ((("at", tuple(at)),) if any(at) else ()))
+        return res
+
+    def _arg_ty(self, t, i):
+        o = t["args"][i]
+        return o["place"]["ty"] if o["k"] in ("copy", "move") else ""
+
+    def _walk_borrows(self, st, v, out, depth=0, mut_only=False):
+        """paths into named roots (state / parameters) that the value borrows, following references to locals"""
+        if not isinstance(v, tuple) or not v or depth > 12:
+            return
+        if mut_only and v[0] == "ucall":
+            return  # an opaque result never holds a mutable borrow of state: handing one to an unmodelled callee fails closed
+        if v[0] in ("ref", "boxref", "sliceiter") and len(v) > 1 and isinstance(v[1], tuple) and v[1]:
+            if isinstance(v[1][0], str):
+                if v[1][0] not in self.sink_roots:
+                    out.append(v[1])
+                return
+            if v[0] == "ref":
+                try:
+                    self._walk_borrows(st, self.deref_val(st, v), out, depth + 1, mut_only)
+                except Unsupported:
+                    out.append(("?",))
+                return
+        for x in v[1:]:
+            if isinstance(x, tuple):
+                self._walk_borrows(st, x, out, depth + 1, mut_only)
+
+    def _borrows_state(self, st, v):
+        out = []
+        self._walk_borrows(st, v, out, 0, True)
+        return bool(out)
+
+    def _borrowed_roots(self, st, args):
+        out = []
+        for a in args:
+            self._walk_borrows(st, a, out)
+        seen = []
+        for p_ in out:
+            if p_ not in seen and p_ != ("?",):
+                seen.append(p_)
+        return seen
 
 
 def fn_params(fn):
@@ -1643,6 +1747,9 @@ def evaluate(F, fn, policy=None, arg_terms=None, self_root="self", canon=False):
         elif ty.get("k") == "ref":
             root = self_root if nm == "self" else nm
             v = ("ref", (root,), None)
+            to = ty.get("to") or {}
+            if to.get("k") == "adt" and to.get("krate") != F.d["crate"]:
+                ex.sink_roots.add(root)  # a foreign sink (fmt::Formatter, ...): not part of the evaluated state
         elif ty.get("k") == "adt" and ty.get("krate") == F.d["crate"]:
             # by-value struct parameter (builder methods take `mut self`): a named root
             fr.param_roots[i] = self_root if nm == "self" else nm
